@@ -898,7 +898,15 @@ class Rewriter:
                         pieces.append(('pad2', arg))
                         k = e + 1
                         continue
-                    elif re.match(r'^:0[3-9]$', inner) or re.match(r'^:\.[0-9]+$', inner) or inner == ':?':
+                    elif inner == ':03':
+                        if ai >= len(args):
+                            ok = False; break
+                        arg = args[ai]; ai += 1
+                        pieces.append(('lit', cur)); cur = ''
+                        pieces.append(('pad3', arg))
+                        k = e + 1
+                        continue
+                    elif re.match(r'^:0[4-9]$', inner) or re.match(r'^:\.[0-9]+$', inner) or inner == ':?':
                         # zero padding to another width / fixed decimals: the rendering is left uninterpreted
                         if ai >= len(args):
                             ok = False; break
@@ -924,6 +932,8 @@ class Rewriter:
                         parts.append('"%s"' % v)
                 elif kind == 'pad2':
                     parts.append('&(%s).vx_pad2()' % v)
+                elif kind == 'pad3':
+                    parts.append('&(%s).vx_pad3()' % v)
                 elif kind == 'opaque':
                     parts.append('&vx::fmt_opaque("%s", &(%s))' % v)
                 else:
